@@ -30,6 +30,10 @@ C03(e, i) == LET r == e.out.ras[i] el == e.out.elab.ifaces[i] IN
              ELSE "ok"
 Verdicts(e) == IF e.out.panic THEN {"c01-c03-panic"}
                ELSE IF ~e.out.accepted THEN {}
+               \* one RA per configured interface, in the document's order (everything below indexes by position)
+               ELSE IF Len(e.out.ras) # Len(e.out.elab.ifaces)
+                       \/ ("doc" \in DOMAIN e /\ Accept(e.doc) /\ Len(e.out.ras) # Len(Elab(e.doc).ifaces))
+                    THEN {"c01-c03-interface-list-differs-from-the-document"}
                ELSE UNION {{C01(e, i), C03(e, i)} : i \in 1..Len(e.out.ras)} \ {"ok"}
 TNext == /\ l <= Len(Trace)
          /\ \A v \in Verdicts(Trace[l]) : PrintT(ToJson([viol |-> v, id |-> Trace[l].id, line |-> l]))
